@@ -344,6 +344,25 @@ result_type parse_url_impl(std::string_view user_input,
 
   const uint32_t max_input_length = ada::get_max_input_length();
 
+  // Checks the resulting (normalized) URL size against the maximum input
+  // length. Normalization (percent-encoding, IDNA, etc.) can expand the URL
+  // beyond the original input size. Every successful exit must go through it.
+  auto enforce_max_length = [&url, max_input_length]() {
+    if constexpr (store_values) {
+      if (url.is_valid) {
+        if constexpr (result_type_is_ada_url_aggregator) {
+          if (url.buffer.size() > max_input_length) {
+            url.is_valid = false;
+          }
+        } else {
+          if (url.get_href_size() > max_input_length) {
+            url.is_valid = false;
+          }
+        }
+      }
+    }
+  };
+
   // We refuse to parse URL strings that exceed the maximum input length.
   // By default, this is 4GB but can be configured via
   // ada::set_max_input_length().
@@ -560,6 +579,7 @@ result_type parse_url_impl(std::string_view user_input,
             }
           }
           url.update_unencoded_base_hash(*fragment);
+          enforce_max_length();
           return url;
         }
         // Otherwise, if base's scheme is not "file", set state to relative
@@ -695,6 +715,7 @@ result_type parse_url_impl(std::string_view user_input,
                 url.update_unencoded_base_hash(*fragment);
               }
             }
+            enforce_max_length();
             return url;
           }
           input_position = end_of_authority + 1;
@@ -910,6 +931,7 @@ result_type parse_url_impl(std::string_view user_input,
             url.update_unencoded_base_hash(*fragment);
           }
         }
+        enforce_max_length();
         return url;
       }
       case state::HOST: {
@@ -1040,6 +1062,7 @@ result_type parse_url_impl(std::string_view user_input,
                 url.update_unencoded_base_hash(*fragment);
               }
             }
+            enforce_max_length();
             return url;
           }
           // If c is neither U+002F (/) nor U+005C (\), then decrease pointer
@@ -1296,22 +1319,7 @@ result_type parse_url_impl(std::string_view user_input,
       url.update_unencoded_base_hash(*fragment);
     }
   }
-  // Check the resulting (normalized) URL size against the maximum input length.
-  // Normalization (percent-encoding, IDNA, etc.) can expand the URL beyond the
-  // original input size.
-  if constexpr (store_values) {
-    if (url.is_valid) {
-      if constexpr (result_type_is_ada_url_aggregator) {
-        if (url.buffer.size() > max_input_length) {
-          url.is_valid = false;
-        }
-      } else {
-        if (url.get_href_size() > max_input_length) {
-          url.is_valid = false;
-        }
-      }
-    }
-  }
+  enforce_max_length();
   return url;
 }
 
